@@ -56,6 +56,8 @@ def check(case, obs_line, prop_name=""):
         if key not in a:
             return None
         want = lst(a[key])
+        if a[key] == "-" and len(o.reqs) == 1:
+            want = ["-"]          # a one-element list whose element is the empty byte string
         if len(want) != len(o.reqs):
             return "FAIL %d requests delivered, %d expected" % (len(o.reqs), len(want))
         for i, (w, r) in enumerate(zip(want, o.reqs)):
